@@ -121,7 +121,7 @@ def observe(o, ctx_names=None, inprocess=True, light=False) -> dict:
     cls = type(o)
     if cls.__str__ is not object.__str__:
         out["str"] = _try(lambda: str(o))
-    d = getattr(o, "__dict__", None)
+    d = lib.state(o)
     if isinstance(d, dict) and "alias" in d:
         a = d["alias"]
         out["alias"] = a if (a is None or isinstance(a, str)) else ["obj", type(a).__name__]
